@@ -6,7 +6,7 @@ out=seeded/MATRIX.txt
 [ $# -eq 0 ] && : > $out
 declare -A ARGS=( [C01]="--seeds 3000 --budget 300" [C02]="--seeds 3000 --budget 300" [C03]="--seeds 3000 --budget 300" [C04]="--seeds 3000 --budget 300"
  [C05]="--seeds 3000 --budget 300" [C08]="--seeds 6000 --budget 300" [C12]="--seeds 6000 --budget 300" [C13]="--seeds 3000 --budget 300" [C03b]="--seeds 3000 --budget 400"
- [C01c]="--seeds 3000 --budget 300" [C03c]="--seeds 3000 --budget 300" [C04c]="--seeds 3000 --budget 300" [C05c]="--seeds 3000 --budget 300" [C12c]="--seeds 6000 --budget 300" [C01d]="--seeds 3000 --budget 300" [C02d]="--seeds 3000 --budget 300" [C04d]="--seeds 3000 --budget 300" [C12d]="--seeds 6000 --budget 300" )
+ [C01c]="--seeds 3000 --budget 300" [C03c]="--seeds 3000 --budget 300" [C04c]="--seeds 3000 --budget 300" [C05c]="--seeds 3000 --budget 300" [C12c]="--seeds 6000 --budget 300" [C01d]="--seeds 3000 --budget 300" [C02d]="--seeds 3000 --budget 300" [C04d]="--seeds 3000 --budget 300" [C12d]="--seeds 6000 --budget 300" [C03d]="--seeds 3000 --budget 300" [C05d]="--seeds 3000 --budget 300" [C08d]="--seeds 6000 --budget 300" )
 # a change seeded against one property may only be visible to the check of another one: tried when the own check stays quiet
 declare -A ALT=( [C02c]="C12 --seeds 6000 --budget 300" [C05c]="C18 --seeds 2400 --budget 400" [C01c]="C03 --seeds 3000 --budget 300" )
 for id in ${@:-$(ls seeded | grep '^C')}; do
